@@ -11,9 +11,10 @@
 package simsched
 
 import (
-	"sync"
 	"fmt"
 	"runtime"
+	"strings"
+	"sync"
 	"sync/atomic"
 )
 
@@ -44,8 +45,10 @@ type Sim struct {
 	deadlock  bool
 	panicVal  interface{}
 	liveCount int
-	prio      []int // pct priorities
+	prio      []int                   // pct priorities
 	wg        map[*sync.WaitGroup]int // counters of the wait groups the tasks use (WGAdd / WGDone / WGWait)
+	ends      sync.WaitGroup          // every task's goroutine has returned before Run returns (an ordering the
+	// race detector must see: the hidden hand-off conceals it)
 }
 
 var (
@@ -106,6 +109,7 @@ type Result struct {
 // Run executes the given task bodies under the scheduler and returns when all have
 // finished (or a deadlock / step limit is detected). Tasks spawned through Go()
 // while running are scheduled as well.
+//
 //go:norace
 func Run(o Options, names []string, bodies []func()) Result {
 	s := &Sim{rng: o.Seed, policy: o.Policy, maxPre: o.MaxPreempt, maxSteps: o.MaxSteps, traceCap: 400, finished: make(chan struct{})}
@@ -128,6 +132,7 @@ func Run(o Options, names []string, bodies []func()) Result {
 	s.mu.Unlock()
 	first.wake.wake()
 	<-s.finished
+	s.ends.Wait()
 	clearTasks()
 	return Result{Steps: s.steps, Switches: s.preempts, Signature: s.sigHash, Deadlock: s.deadlock, Trace: s.Trace, Panic: s.panicVal}
 }
@@ -138,7 +143,9 @@ func (s *Sim) spawnLocked(name string, body func()) *task {
 	t.wake.init()
 	s.tasks = append(s.tasks, t)
 	s.liveCount++
+	s.ends.Add(1)
 	go func() {
+		defer s.ends.Done()
 		regTask(t)
 		t.wake.wait() // wait for the token
 		defer func() {
@@ -160,6 +167,7 @@ func (s *Sim) spawnLocked(name string, body func()) *task {
 
 // pickLocked chooses the next task to run among the live ones (all live tasks other
 // than the current one are parked waiting for the token).
+//
 //go:norace
 func (s *Sim) pickLocked(from *task) *task {
 	var live []*task
@@ -208,6 +216,7 @@ func (s *Sim) record(t *task, site string) {
 }
 
 // yield is a scheduling point of the current task.
+//
 //go:norace
 func (s *Sim) yield(t *task, site string, lockWait bool) {
 	s.mu.Lock()
@@ -255,6 +264,7 @@ func (s *Sim) exit(t *task) {
 }
 
 // Yield is inserted at function entries of the anchored packages.
+//
 //go:norace
 func Yield(site string) {
 	s, t := curTask()
@@ -265,11 +275,19 @@ func Yield(site string) {
 }
 
 // Go replaces a `go` statement: under a simulation the goroutine becomes a task.
+//
 //go:norace
 func Go(site string, f func()) {
 	s, t := curTask()
 	if s == nil || t == nil {
-		go f()
+		// outside a simulation a short-lived goroutine is run to completion at once (the schedule in which it
+		// runs first); only the service loops, which never return, become real goroutines
+		if longLived(site) {
+			noteEscaped(site)
+			go f()
+			return
+		}
+		f()
 		return
 	}
 	s.mu.Lock()
@@ -284,6 +302,7 @@ type tryLocker interface {
 }
 
 // Lock replaces x.Lock(): a task never blocks the OS thread on a lock held by a parked task.
+//
 //go:norace
 func Lock(l tryLocker, site string) {
 	s, t := curTask()
@@ -304,6 +323,7 @@ type tryRLocker interface {
 }
 
 // RLock replaces x.RLock().
+//
 //go:norace
 func RLock(l tryRLocker, site string) {
 	s, t := curTask()
@@ -321,6 +341,7 @@ func RLock(l tryRLocker, site string) {
 // WGAdd, WGDone, WGWait replace x.Add(n), x.Done(), x.Wait() on a sync.WaitGroup: a task that waits never
 // blocks its OS thread while the tasks it waits for are parked; it yields until the counter the tasks
 // themselves produced is back at zero, then calls the real Wait (which returns at once).
+//
 //go:norace
 func WGAdd(w *sync.WaitGroup, n int) {
 	if s, t := curTask(); s != nil && t != nil {
@@ -358,7 +379,50 @@ func WGWait(w *sync.WaitGroup, site string) {
 	w.Wait()
 }
 
+// longLived: `go` sites (file:line:callee) whose goroutine is a service loop or blocks on channels for the life
+// of the node.
+//
+//go:norace
+func longLived(site string) bool {
+	i := strings.LastIndex(site, ":")
+	callee := site[i+1:]
+	if callee == "func" {
+		return true
+	}
+	for _, w := range []string{"loop", "Loop", "receiveMessage", "logChannel", "waitUntilDone", "Sync", "sync", "requestBlockChainPiece", "triggerOnFork", "growRing"} {
+		if strings.Contains(callee, w) {
+			return true
+		}
+	}
+	return false
+}
+
+// Escaped goroutines: `go` statements of the instrumented packages executed by a goroutine that is not a
+// scheduler task start a REAL goroutine whose timing nobody controls. The runner reports their sites as
+// probes ("escaped_go:<site>"); a harness must not leave any on a path it judges.
+var (
+	escapedMu sync.Mutex
+	escaped   = map[string]int{}
+)
+
+//go:norace
+func noteEscaped(site string) {
+	escapedMu.Lock()
+	escaped[site]++
+	escapedMu.Unlock()
+}
+
+// TakeEscaped returns and clears the sites recorded since the last call.
+func TakeEscaped() map[string]int {
+	escapedMu.Lock()
+	defer escapedMu.Unlock()
+	out := escaped
+	escaped = map[string]int{}
+	return out
+}
+
 // Active reports whether the caller runs as a scheduled task.
+//
 //go:norace
 func Active() bool {
 	_, t := curTask()
